@@ -64,6 +64,9 @@ type world struct {
 	toGate      chan []byte
 
 	shows   int       // cursor-show sequences seen (the end of a redisplay)
+	reports int       // cursor position reports sent so far
+	mix     func(n int, report []byte) []byte // joins the n-th report with keys of the script (nil: alone)
+	mixGate func(report []byte) []byte        // the same for a report that goes through the gated read
 	atShow  bool      // the output so far ends with one: no redisplay is in progress
 	lastOut time.Time // last output of the library
 	height  int
@@ -92,8 +95,16 @@ func (w *world) reset(width, height int) {
 	// only one emulator answers. While the main loop is parked in the gated read and an application
 	// goroutine queries the cursor, the report has to reach the main loop through that read, as it
 	// would on a real terminal (the library hands it over to the waiting query).
+	w.reports = 0
 	w.vte.Reply = func(b []byte) {
+		w.reports++
+		if w.mix != nil {
+			b = w.mix(w.reports, b)
+		}
 		if w.gateReading.Load() {
+			if w.mixGate != nil {
+				b = w.mixGate(b)
+			}
 			w.toGate <- append([]byte{}, b...)
 			return
 		}
@@ -173,7 +184,10 @@ func panicSite() string {
 	fr := runtime.CallersFrames(pcs[:n])
 	for {
 		f, more := fr.Next()
-		if strings.Contains(f.Function, "reeflective/readline") && !strings.Contains(f.Function, "/verifx") {
+		// (Readline's own deferred handler re-panics after moving the cursor below the input: the frame
+		// that panicked first is further down the same stack)
+		if strings.Contains(f.Function, "reeflective/readline") && !strings.Contains(f.Function, "/verifx") &&
+			!strings.Contains(f.Function, ".Readline.func") {
 			fn := f.Function[strings.LastIndex(f.Function, "/")+1:]
 			return fmt.Sprintf("%s:%d", fn, f.Line)
 		}
@@ -245,6 +259,23 @@ func (g *gate) Read(p []byte) (int, error) {
 			g.pending = done
 			// the main goroutine is in its read from here on: the cursor report the application goroutine
 			// asks for must come through this read (set before the goroutine can emit its query)
+			g.w.mixGate = nil
+			if a.With != "" && len(g.chunks) > 1 {
+				// (the main goroutine is parked in this read while the report is produced)
+				with, once := a.With, false
+				g.w.mixGate = func(report []byte) []byte {
+					if once || len(g.chunks) < 2 {
+						return report
+					}
+					once = true
+					keys := g.chunks[0]
+					g.chunks = g.chunks[1:]
+					if with == "before" {
+						return append(append([]byte{}, keys...), report...)
+					}
+					return append(append([]byte{}, report...), keys...)
+				}
+			}
 			g.w.gateReading.Store(true)
 			if a.Kind == "resize" {
 				// the terminal is resized (Text: the new width, "burst:" for three signals in a row) while the main
@@ -445,6 +476,22 @@ func runSession(w *world, sp Spec, dir string) (tr Trace) {
 	for _, c := range sp.Chunks {
 		b, _ := hex.DecodeString(c)
 		g.chunks = append(g.chunks, b)
+	}
+	w.mix = nil
+	if len(sp.CPRWith) > 0 {
+		// (the library is blocked waiting for the report when this runs: the script is not being read)
+		w.mix = func(n int, report []byte) []byte {
+			how, ok := sp.CPRWith[n]
+			if !ok || len(g.chunks) == 0 {
+				return report
+			}
+			keys := g.chunks[0]
+			g.chunks = g.chunks[1:]
+			if how == "before" {
+				return append(append([]byte{}, keys...), report...)
+			}
+			return append(append([]byte{}, report...), keys...)
+		}
 	}
 	core.Stdin = g
 
